@@ -697,6 +697,7 @@ func classify(r *hx.Run, sc *scenario, w *world, res result, obs string) {
 		switch {
 		case w.failed[i]:
 			r.Count("matcher:failed")
+			r.Count("matcher:failed-with-error-class=" + errClassName[m.ec%nErrClasses] + "/ctx=" + sc.ctx)
 		case w.remoteKO[i]:
 			r.Count("matcher:remote-error-swallowed")
 		case len(w.accepted[i]) > 0:
